@@ -300,9 +300,17 @@ pub struct Emitter<'p> {
     /// names declared more than once (a forward declaration and its definition): which of the
     /// declarations a use of the NAME denotes is left open; members are judged normally
     redeclared: Vec<String>,
+    /// layout mode: a comment follows every identifier the emitter records (declarations and uses)
+    trivia: bool,
 }
 
 pub fn emit(prog: &Program) -> Emitted {
+    emit_with(prog, false)
+}
+
+/// `trivia`: every recorded identifier is followed by a blank and a comment; the recorded ranges
+/// still cover the identifier only.
+pub fn emit_with(prog: &Program, trivia: bool) -> Emitted {
     let mut e = Emitter {
         prog,
         out: Emitted { files: prog.files.iter().map(|(n, _)| FileOut { name: n.clone(), ..Default::default() }).collect(), ..Default::default() },
@@ -321,6 +329,7 @@ pub fn emit(prog: &Program) -> Emitted {
         cur_probe: None,
         targ_has_default: Vec::new(),
         redeclared: Vec::new(),
+        trivia,
     };
     e.file_items(0);
     // files that are never included are still printed (they exist on disk) but have no semantics
@@ -389,6 +398,9 @@ impl<'p> Emitter<'p> {
         let id = self.out.decls.len();
         self.out.decls.push(Decl { kind, name: name.into(), file: self.file, range: (s, s + name.len()), ty, doc: doc.to_vec(), owner, uses: vec![] });
         self.out.occs.push(Occ { file: self.file, range: (s, s + name.len()), name: name.into(), target: Some(id), is_decl: true, judged: true, probe: self.cur_probe, role: Role::Decl });
+        if self.trivia {
+            self.w(" /*d*/");
+        }
         id
     }
 
@@ -405,6 +417,9 @@ impl<'p> Emitter<'p> {
             self.out.decls[t].uses.push((self.file, r));
         }
         self.out.occs.push(Occ { file: self.file, range: r, name: name.into(), target, is_decl: false, judged, probe: self.cur_probe, role });
+        if self.trivia {
+            self.w(" /*u*/");
+        }
     }
 
     fn find_field(&self, rec: usize, name: &str) -> Option<(DeclId, Ty)> {
